@@ -62,6 +62,26 @@ Theorem C12_from_prefix_refuted : exists line, from_prefix_asis line <> id_suffi
 Proof. exact from_prefix_asis_refuted. Qed.
 Print Assumptions C12_from_prefix_refuted.
 
+(* Branch selector of the package-listing shortcut (the half-typed line does not parse, so this
+   branch must be taken): every line  <indentation> from X  with X any dotted identifier path -
+   empty, relative, unfinished, starting with the letters "import", "from", "as" ... - takes it. *)
+Theorem C12_from_shortcut_taken : forall indent X,
+  forallb is_space indent = true -> forallb is_path_char X = true ->
+  from_branch (indent ++ kw_from ++ X) = true.
+Proof. exact from_branch_taken. Qed.
+Print Assumptions C12_from_shortcut_taken.
+
+(* ... and no line in which ` import ` has been typed does. *)
+Theorem C12_from_shortcut_left : forall a b, from_branch (a ++ kw_import ++ b) = false.
+Proof. exact from_branch_after_import. Qed.
+Print Assumptions C12_from_shortcut_left.
+
+(* "    from importlib.ut" takes the shortcut, "from importlib import ut" does not *)
+Example C12_example_from_branch :
+  from_branch [32; 32; 32; 32; 102; 114; 111; 109; 32; 105; 109; 112; 111; 114; 116; 108; 105; 98; 46; 117; 116]%N = true /\
+  from_branch [102; 114; 111; 109; 32; 105; 109; 112; 111; 114; 116; 108; 105; 98; 32; 105; 109; 112; 111; 114; 116; 32; 117; 116]%N = false.
+Proof. vm_compute. split; reflexivity. Qed.
+
 (* ---- proposals ---------------------------------------------------------------------------- *)
 
 (* For EVERY list of names: no proposal contains the cursor mark, and the proposals are exactly the
